@@ -44,8 +44,9 @@ struct Tally {
 
 static void oracle()
 {
-    Tally sysm, par, lin, minw, corr, wrong, rej4, sound, uniq;
+    Tally sysm, par, lin, minw, corr, wrong, rej4, sound, lend;
     unsigned long accepted = 0;
+    unsigned long rejected_by_weight[4] = {0, 0, 0, 0};
     std::vector<uint32_t> cw(4096);
     for (uint32_t d = 0; d != 4096; ++d) {
         uint32_t c = G::encode24(uint16_t(d));
@@ -67,7 +68,7 @@ static void oracle()
             bool ok = G::decode(c ^ e, out);
             if (w <= 3) {
                 ++corr.n;
-                if (!ok) corr.hit("d=%03x:e=%06x:r=%06x", d, e, c ^ e);
+                if (!ok) { corr.hit("d=%03x:e=%06x:r=%06x", d, e, c ^ e); ++rejected_by_weight[w]; }
                 else if ((out >> 12) != d) wrong.hit("d=%03x:e=%06x:out=%06x", d, e, out);
             } else {
                 ++rej4.n;
@@ -86,10 +87,23 @@ static void oracle()
             if (out >= (1u << 24) || std::popcount(r ^ cw[d]) > 3) sound.hit("r=%06x:out=%06x:dist=%u", r, out, unsigned(std::popcount(r ^ cw[d])));
         }
     }
+    // the search of decode(), repeated on the public table for every 24-bit word (the iterator inside decode() is not
+    // observable through the API, and ASan does not instrument the inline constexpr LUT): never end(), key == syndrome
+    for (uint32_t r = 0; r != (1u << 24); ++r) {
+        auto s = G::syndrome(r >> 1);
+        auto it = std::lower_bound(G::LUT.begin(), G::LUT.end(), s,
+            [](const G::SyndromeMapEntry& sme, uint32_t val) { return (sme.a >> 8) < val; });
+        ++lend.n;
+        if (it == G::LUT.end()) lend.hit("r=%06x:syndrome=%06x:idx=%u", r, s, unsigned(it - G::LUT.begin()));
+        else if ((it->a >> 8) != s) lend.hit("r=%06x:syndrome=%06x:idx=%u", r, s, unsigned(it - G::LUT.begin()));
+    }
     auto p = [](const char* name, const Tally& t) { std::printf("%s=%lu/%lu first=%s\n", name, t.bad, t.n, t.first.c_str()); };
     p("systematic", sysm); p("evenparity", par); p("linear", lin); p("minweight8", minw);
     p("correctable-rejected", corr); p("wrong-data", wrong); p("fourbit-accepted", rej4); p("unsound-accept", sound);
+    p("lookup-misses-row", lend);
     std::printf("accepted=%lu\n", accepted);
+    std::printf("rejected-correctable-by-weight=0:%lu,1:%lu,2:%lu,3:%lu\n", rejected_by_weight[0], rejected_by_weight[1],
+                rejected_by_weight[2], rejected_by_weight[3]);
 }
 
 // decode every 24-bit word (used under the sanitizers: `it->a` must stay inside the table)
